@@ -449,3 +449,34 @@ Proof.
   exact (compose_alm_invariants _ _ _ AP (pb_of Pb split) outer_fuel (pf Pb x0) (pg Pb x0) nanv Σ0 y0 x0 (cnt0, d0) co).
 Qed.
 Print Assumptions C07_alm_panoc_lbfgs_run_satisfies_alm_invariants.
+
+(* ---- (15) instance: the SHIPPED PANTR STACK ALMSolver<PANTRSolver<NewtonTRDirection>> (composed model AlmPantrDir.alm_pantr_dir with
+        DirectionsTR.newton_tr_dir over Steihaug.cg_solve; every NewtonTRDirectionParams / SteihaugCGParams, exact Hessian products or finite
+        differences, arbitrary eval_grad_ψ / eval_hess_ψ_prod members, any provider state d0, every problem / provider mix / stop / clock
+        oracle, no hypothesis on the problem functions): every completed run satisfies the ALM invariants for the user's constraint box D
+        and penalty_alm_split, and every record of its trace is one whole PANTR solve (AlmPantrDir.tdinner) with the provider object handed
+        on.  Immediate from AlmComposeC07.compose_alm_invariants. ---- *)
+From Alpaqa Require Import Pantr Steihaug DirectionsTR PantrDir AlmPantr AlmPantrDir.
+Theorem C07_alm_pantr_newtontr_run_satisfies_alm_invariants :
+  forall (Pb : problem (T:=R)) (prov : fn -> bool) (wm_supplied : list R -> list R) (Clb Cub : list (option R)) (l1 : list R)
+    (split : nat) (dlb dub : list (option R)) (dl1 : list R) (prov_inactive prov_hess_L prov_hess_psi m_is_zero : bool)
+    (grad_psi_at : list R -> list R -> list R -> list R) (hess_psi_prod : list R -> list R -> list R -> R -> list R -> list R)
+    (hvf : R) (fd : bool) (fd_step cg_ts cg_tsr : R) (cg_tmax : option R) (cg_max_iter : nat -> Z) (eps_mach : R)
+    (stop_req time_up : counters -> bool) (outer_oot : nat -> bool) (TP : trparams (T:=R)) (AP : alm_params (T:=R)) (bt_fuel inner_fuel : nat)
+    (d0 : ntrstate R) (outer_fuel : nat) (nanv : R) (Σ0 : option (list R)) (y0 x0 : list R)
+    (co : cout (counters * ntrstate R) (tresultD (T:=R) (ntrstate R))),
+  let ntr := newton_tr_dir dlb dub dl1 prov_inactive prov_hess_L prov_hess_psi m_is_zero grad_psi_at hess_psi_prod
+                           hvf fd fd_step cg_ts cg_tsr cg_tmax cg_max_iter eps_mach in
+  alm_pantr_dir Pb prov wm_supplied Clb Cub l1 split (ntrstate R) ntr stop_req time_up outer_oot TP AP
+                bt_fuel inner_fuel d0 outer_fuel nanv Σ0 y0 x0 = Some co ->
+  alm_invariants AP (pb_of Pb split) (pf Pb x0) (pg Pb x0) Σ0 y0 (co_trace co) (co_final co) /\
+  f_exhausted (co_final co) = false /\
+  called (counters * ntrstate R) (tresultD (T:=R) (ntrstate R))
+         (tdinner Pb prov wm_supplied Clb Cub l1 (ntrstate R) ntr stop_req time_up outer_oot TP bt_fuel inner_fuel)
+         x0 (cnt0, d0) (co_trace co) (co_x co) (co_w co).
+Proof.
+  intros Pb prov wm Clb Cub l1 split dlb dub dl1 b1 b2 b3 b4 f1 f2 hvf fd fs ts tsr tm mi em stop_req time_up outer_oot TP AP bt_fuel inner_fuel
+         d0 outer_fuel nanv Σ0 y0 x0 co ntr.
+  exact (compose_alm_invariants _ _ _ AP (pb_of Pb split) outer_fuel (pf Pb x0) (pg Pb x0) nanv Σ0 y0 x0 (cnt0, d0) co).
+Qed.
+Print Assumptions C07_alm_pantr_newtontr_run_satisfies_alm_invariants.
